@@ -113,6 +113,11 @@ def run_one(st, cls, spec, mode, ext, rnd, tier):
 def shard(tier, seed, shard, nshards):
     st = common.Stats()
     n = N[tier] // nshards
+    if shard == 1:
+        common.repo_suite_workload(st, ID, (
+            "dependence-violated", "unbalanced-loop-brackets", "body-not-innermost",
+            "unclosed-loops", "loops-not-in-loop-order", "hoisted-dependent-node",
+            "dependent-before-loop", "posthoist-not-a-permutation"))
     for i in range(n):
         it = corpus.item(ID, seed, shard, i, CLASSES)
         if it is None:
